@@ -202,7 +202,7 @@ def check(ctx):
             # loop form: an index scan over the list with in-place order-preserving removal; the removal is reached only
             # where the element at the position compared equal on both the reaction type and the system id
             def is_list(op):
-                return any(f[1] == "reactors" for f, ch in lib.receiver_chains(er, op))
+                return any(f[1] == A.entity_reactors_field(prog) for f, ch in lib.receiver_chains(er, op))
             for sc in lib.index_scans(er, is_list):
                 rt_h, id_h = [], []
                 for (b, t, fr, is_eq) in lib.comparison_calls(er):
@@ -228,7 +228,7 @@ def check(ctx):
         ctx.check(ok, "C06.b", "EntityReactors::remove:predicate-needs-type-and-id", "%s:%d" % (er.file, er.line),
                   "entry is removed only where reaction type and system id both compared equal",
                   "EntityReactors::remove's predicate does not require both the reaction type and the system id to match")
-        ops = lib.field_method_calls(er, "EntityReactors", "reactors")
+        ops = lib.field_method_calls(er, "EntityReactors", A.entity_reactors_field(prog))
         def _reads_only(n):
             cb_ = prog.by_path.get(n) or next((x for x in prog.bodies if mir.strip_generics(x.path) == mir.strip_generics(n)), None)
             return cb_ is not None and cb_.arg_count >= 1 and cb_.local_ty(1).startswith("&") and not cb_.local_ty(1).startswith("&mut")
